@@ -474,17 +474,22 @@ class Translator:
         declared = spec['args']
         if not ({'expr_of', 'arg_of', 'if_test', 'kwarg_of'} & set(spec)) and [a for a, _ in declared] != pyargs:
             raise Unsupported(f'{spec["py"]}: parameters are now {pyargs}, kernel table says {[a for a, _ in declared]}')
-        cx = Ctx(dict(declared), self.funcs, self.consts, spec.get('selfattrs', {}), spec.get('raises', False),
+        # extra_args: values the method reads through attribute chains (self._info.size, ...), made parameters of the kernel and
+        # bound by `rename`
+        extras = list(spec.get('extra_args', []))
+        cx = Ctx(dict(extras + list(declared)), self.funcs, self.consts, spec.get('selfattrs', {}), spec.get('raises', False),
                  self.pyctr_errs)
         cx.written = list(spec.get('writes', []))
         cx.rettype = spec.get('ret')
         cx.retseen = []
-        cx.attr_vars = {k: (v, dict(declared)[v]) for k, v in spec.get('rename', {}).items()}
+        cx.attr_vars = {k: (v, dict(extras + list(declared))[v]) for k, v in spec.get('rename', {}).items()}
         cx.cut_at_with = spec.get('cut_at_with', False)
         cx.early = spec.get('early_return')
         params = []
         for a in sorted(spec.get('selfattrs', {})):
             params.append(('self_' + a.lstrip('_'), spec['selfattrs'][a]))
+        for a, ty in extras:
+            params.append((self.vname(a), ty))
         for a, ty in declared:
             params.append((self.vname(a), ty))
         if 'arg_of' in spec or 'if_test' in spec or 'kwarg_of' in spec:
